@@ -546,7 +546,7 @@ u_special(uint64_t idx, void *arg)
     }
     /* every character a symbol may start with and continue with (the reader's tables at the pinned commit: letters
      * and + % | / _ : ; . ! ? $ & = * < > ~ as initials, digits and '-' in addition behind them): alone, doubled,
-     * in front of and behind a letter, followed by -9; as an expression of its own, as first and as middle element
+     * in front of and behind a letter, followed by -9 and by digits; as an expression of its own, as first and as middle element
      * of a list, under all three whitespace policies */
     {
         static const char initials[] = "abcdefghijklmnopqrstuvwxyzABCDEFGHIJKLMNOPQRSTUVWXYZ+%|/_:;.!?$&=*<>~";
@@ -554,10 +554,12 @@ u_special(uint64_t idx, void *arg)
         vh_unit_rng(&sr, "symchars", 0);
         const char *keep = atoms_sym[0];
         for (size_t ci = 0; initials[ci]; ci++)
-            for (int form = 0; form < 5; form++) {
+            for (int form = 0; form < 8; form++) {
                 char sym[8];
                 const char c = initials[ci];
-                snprintf(sym, sizeof sym, form == 0 ? "%c" : form == 1 ? "%c%c" : form == 2 ? "%ca" : form == 3 ? "a%c" : "%c-9", c, c);
+                /* (a digit right behind the initial makes +5, .5, x1F ... - symbols, whatever they look like) */
+                snprintf(sym, sizeof sym, form == 0 ? "%c" : form == 1 ? "%c%c" : form == 2 ? "%ca" : form == 3 ? "a%c" : form == 4 ? "%c-9"
+                         : form == 5 ? "%c5" : form == 6 ? "%c0x" : "%c1F", c, c);
                 atoms_sym[0] = sym;
                 struct tree leaf = { .kind = 0, .atom = 0 }, other = { .kind = 0, .atom = 1 }, num = { .kind = 0, .atom = 4 };
                 struct tree l1 = { .kind = 1, .nchild = 2, .child = { &leaf, &other } };
